@@ -437,7 +437,7 @@ func c14ImmutableTags(c *core.Ctx) {
 								continue
 							}
 							if p, isP := facts.ResolveFree(pr[1]).(*ssa.Parameter); isP {
-								t["sameMT:"+facts.Term(lk.Index)+":"+p.Name()] = true
+								t["sameMT:"+facts.Term(lk.Index)+":"+facts.Term(p)] = true
 							}
 						}
 					}
@@ -462,6 +462,27 @@ func c14ImmutableTags(c *core.Ctx) {
 				return true
 			},
 		}
+		// helpers worth following: those that (transitively) test ImmutableTags,
+		// ask the reachability question, or touch the tag/content maps
+		facts.NewInliner(&ff, func(h *ssa.Function) bool {
+			return h.Pkg == fn.Pkg && h != refers && helperTouches(h, 3, func(in ssa.Instruction) bool {
+				switch x := in.(type) {
+				case *ssa.FieldAddr, *ssa.Field:
+					_, name, ok := facts.FieldOf(x.(ssa.Value))
+					return ok && name == "ImmutableTags"
+				case *ssa.MapUpdate:
+					_, ok := memMapField(x.Map)
+					return ok
+				case *ssa.Call:
+					if bi, ok := x.Call.Value.(*ssa.Builtin); ok && bi.Name() == "delete" {
+						_, ok := memMapField(x.Call.Args[0])
+						return ok
+					}
+					return refers != nil && x.Call.StaticCallee() == refers
+				}
+				return false
+			})
+		})
 		flow := facts.PathFlow(fn, ff)
 		for _, site := range sites {
 			switch x := site.(type) {
@@ -475,7 +496,7 @@ func c14ImmutableTags(c *core.Ctx) {
 								if _, fn2, _ := facts.FieldOf(fa); fn2 == "mediaType" {
 									for _, st := range facts.StoresTo(fa) {
 										if p, isP := facts.ResolveFree(st.Val).(*ssa.Parameter); isP {
-											mtParam = p.Name()
+											mtParam = facts.Term(p)
 										}
 									}
 								}
